@@ -596,6 +596,12 @@ func corpusScripts(o *Out) {
 		{{0xc0, 300000}, {0xc0, 300000}, {0xc0, 300000}, {0x40, 90000}, {0x30, 20000}, {0xc0, 5}, {0, -1}, {0x20, 40000}, {0, -1}},
 		// refused puts in a row between accepted ones that land exactly at, one above and one below the capacity
 		{{0xe0, 500000}, {0xd0, 499900}, {0x20, 4}, {0xee, 50}, {0xef, 60}, {0xed, 70}, {0x21, 400000}, {0x22, 99900}, {0x23, 0}, {0xec, 80}, {0x24, 1}, {0, -1}},
+		// the counter stands at EXACTLY 95 % of the capacity at a reopen (the radius is the maximum: "more than 95 %"), then
+		// one byte more and another reopen (now it is re-derived)
+		{{0x11, 99968}, {0x22, 99968}, {0x33, 99968}, {0x44, 99968}, {0x55, 99968}, {0x66, 99968}, {0x77, 99968}, {0x88, 99968}, {0x99, 99968}, {0xaa, 49968},
+			{0, -1}, {0xbb, 0}, {0, -1}, {0xcc, 1}, {0, -1}},
+		// exactly at the capacity (no prune), then one byte over
+		{{0x11, 499968}, {0x22, 499968}, {0, -1}, {0x33, 0}, {0, -1}},
 	}
 	for _, sc := range scripts {
 		var node enode.ID
